@@ -27,7 +27,7 @@ const std::string Opm::ParserKeywords::WPAVE::CONNECTION::defaultValue = "OPEN";
 #endif
 using namespace Opm;
 #define CEQ(a, b) CHECK(EQ((a), (b)))
-alignas(16) static unsigned char sched_storage[sizeof(Schedule)];
+alignas(16) static unsigned char sched_storage[2][sizeof(Schedule)];
 alignas(16) static unsigned char dummy[8192];
 template <class T> static T& none() { return *reinterpret_cast<T*>(dummy); }
 static Well mkwell(const char* name) {
@@ -36,9 +36,9 @@ static Well mkwell(const char* name) {
 }
 static DeckItem sitem(const char* n, const char* v) { DeckItem it(n, std::string()); it.push_back(std::string(v)); return it; }
 static DeckItem ditem(const char* n, double v) { DeckItem it(n, double(), { Dimension(1.0) }, { Dimension(1.0) }); it.push_back(v); return it; }
-static Schedule* two_step_schedule() {
+static Schedule* two_step_schedule(int slot = 0) {
     // report step 0 with two wells, then report step 1 created from it the way Schedule::create_next does
-    Schedule* sched = reinterpret_cast<Schedule*>(sched_storage);
+    Schedule* sched = reinterpret_cast<Schedule*>(sched_storage[slot]);
     new (&sched->snapshots) std::vector<ScheduleState>();
     new (&sched->action_wgnames) Action::WGNames();
     ScheduleState s0(TimeService::from_time_t(0));
@@ -52,6 +52,6 @@ static Schedule* two_step_schedule() {
     return sched;
 }
 struct Ctx { ParseContext pc; ErrorGuard eg; Action::Result::MatchingEntities matches; std::unordered_map<std::string, double> wpimult; };
-static HandlerContext mkcontext(Schedule& sched, const DeckKeyword& kw, Ctx& c) {
-    return HandlerContext(sched, none<ScheduleBlock>(), kw, none<ScheduleGrid>(), 1, c.matches, false, c.pc, c.eg, nullptr, nullptr, c.wpimult, nullptr, nullptr);
+static HandlerContext mkcontext(Schedule& sched, const DeckKeyword& kw, Ctx& c, bool actionx_mode = false) {
+    return HandlerContext(sched, none<ScheduleBlock>(), kw, none<ScheduleGrid>(), 1, c.matches, actionx_mode, c.pc, c.eg, nullptr, nullptr, c.wpimult, nullptr, nullptr);
 }
